@@ -249,7 +249,8 @@ bad = []
 atoms = [None, 0, 1, 'a', '', (1, 2), [1], [1, 2], {'k': 1}]
 dicts = [{}, {'a': None}, {'b': None}, {'a': 1}, {'a': 1, 'b': 2}, {'b': 2, 'a': 1}, {'a': None, 'b': None}, {'c': None, 'd': None},
          {'a': [1], 'b': 2}, {'b': 2, 'a': [1]}, {'a': [1], 'b': 3}, {'a': {'x': None}}, {'a': {'y': None}}, {1: 'x'}, {2: 'x'}]
-seqs = [[], [1], [2], [1, 2], [2, 1], [[1], 2], [[1], 3], (1,), (1, 2), [None], [0], [{'a': 1}], [{'a': 2}], [{'b': 1}]]
+seqs = [[], [1], [2], [1, 2], [2, 1], [[1], 2], [[1], 3], (1,), (1, 2), [None], [0], [{'a': 1}], [{'a': 2}], [{'b': 1}],
+        [(0, 1), (2, 3)], [[0, 1], [2, 3]], ([0, 1], [2, 3]), ((0, 1), (2, 3)), [[(0,)]], [[[0]]], [{'k': (1,)}], [{'k': [1]}]]
 import decimal, fractions, datetime
 # numbers of every kind, also those a float cannot tell apart, and scalars next to each other
 numbers = [0, 1, -1, 2 ** 53, 2 ** 53 + 1, 2 ** 64, 2 ** 64 + 1, 10 ** 30, 10 ** 30 + 1, 0.1, 0.30000000000000004, 0.3, 1e300, float('inf'),
